@@ -250,6 +250,10 @@ def run(ctx: Ctx) -> None:
 
     c09.run(Alias(ctx, "C08.R9", "pressure abates => the waiting send is released: WINDOW_UPDATE (stream-level, connection-level stream 0, SETTINGS) and RST_STREAM reach unblock + wake-up, and the send task re-consults the tree (same analysis as C09.R3/R4/R6)", only={"C09.R3", "C09.R4", "C09.R6"}))
 
+    from . import c17
+
+    c17.run(Alias(ctx, "C08.R10", "WSGI applications run in a thread: their sends go through a bridge that waits for the event-loop send to complete, so backpressure reaches the application thread (C17.R2)", only={"C17.R2"}))
+
     ctx.assume("not decided: the numeric bound itself, fairness between streams, promptness of release; asyncio StreamWriter.drain / trio send_all semantics are trusted")
     ctx.assume("invariant used (exempt site): a stream unblocked in the priority tree always has an entry in stream_buffers, so the lookup inside _send_data's handler cannot raise")
 
